@@ -73,6 +73,13 @@ type Swamp interface {
 	// 2. Populating the treasure with data before storing it in the Swamp.
 	CreateTreasure(key string) treasure.Treasure
 
+	// CreateTreasureGuarded is CreateTreasure followed by StartTreasureGuard(true), repeated until the guarded
+	// object is the one that stands for the key. A request that looked a record up and then waited for its guard
+	// behind a Delete or a shift would otherwise go on to change - and save again - an object that is no longer
+	// in the swamp: the removed record came back, or the request's write went to an orphan nobody can read.
+	// The caller releases the guard with ReleaseTreasureGuard as usual.
+	CreateTreasureGuarded(key string) (treasure.Treasure, guard.ID)
+
 	// GetTreasure retrieves a single "Treasure" from a "Swamp" by its unique key.
 	//
 	// This function takes a key string as a parameter, which uniquely identifies the desired treasure within the Swamp.
@@ -1292,17 +1299,13 @@ func (s *swamp) createMetaForIncrementResponse(treasureObj treasure.Treasure) *I
 func (s *swamp) IncrementUint8(key string, i uint8, condition *IncrementUInt8Condition, metadataRequestIfNotExist *IncrementMetadataRequest, metadataRequestIfExist *IncrementMetadataRequest) (newValue uint8, incremented bool, metadataResponse *IncrementMetadataResponse, err error) {
 
 	// get-or-create the treasure for this key
-	treasureObj := s.beaconKey.Get(key)
-	if treasureObj == nil {
-		treasureObj = s.CreateTreasure(key)
-	}
 
 	// acquire the guard before inspecting or mutating the treasure. The existence/type check
 	// must happen inside the guard: there is a TOCTOU window between beaconKey.Get and
 	// CreateTreasure where another goroutine can publish the treasure into the beacon. Without
 	// the in-guard re-check, the "new treasure" branch would call SetContentXxx(0) on a treasure
 	// that already holds a value, silently resetting the counter and corrupting return values.
-	guardID := treasureObj.StartTreasureGuard(true)
+	treasureObj, guardID := s.CreateTreasureGuarded(key)
 	defer treasureObj.ReleaseTreasureGuard(guardID)
 
 	// Nothing is changed before the condition has been evaluated: a call whose
@@ -1382,12 +1385,8 @@ func (s *swamp) IncrementUint16(key string, i uint16, condition *IncrementUInt16
 
 	// get-or-create the treasure for this key. See IncrementUint8 for the rationale behind the
 	// in-guard re-check that follows.
-	treasureObj := s.beaconKey.Get(key)
-	if treasureObj == nil {
-		treasureObj = s.CreateTreasure(key)
-	}
 
-	guardID := treasureObj.StartTreasureGuard(true)
+	treasureObj, guardID := s.CreateTreasureGuarded(key)
 	defer treasureObj.ReleaseTreasureGuard(guardID)
 
 	// Nothing is changed before the condition has been evaluated: a call whose
@@ -1466,12 +1465,8 @@ func (s *swamp) IncrementUint32(key string, i uint32, condition *IncrementUInt32
 
 	// get-or-create the treasure for this key. See IncrementUint8 for the rationale behind the
 	// in-guard re-check that follows.
-	treasureObj := s.beaconKey.Get(key)
-	if treasureObj == nil {
-		treasureObj = s.CreateTreasure(key)
-	}
 
-	guardID := treasureObj.StartTreasureGuard(true)
+	treasureObj, guardID := s.CreateTreasureGuarded(key)
 	defer treasureObj.ReleaseTreasureGuard(guardID)
 
 	// Nothing is changed before the condition has been evaluated: a call whose
@@ -1549,12 +1544,8 @@ func (s *swamp) IncrementUint32(key string, i uint32, condition *IncrementUInt32
 func (s *swamp) IncrementUint64(key string, i uint64, condition *IncrementUInt64Condition, metadataRequestIfNotExist *IncrementMetadataRequest, metadataRequestIfExist *IncrementMetadataRequest) (newValue uint64, incremented bool, metadataResponse *IncrementMetadataResponse, err error) {
 	// get-or-create the treasure for this key. See IncrementUint8 for the rationale behind the
 	// in-guard re-check that follows.
-	treasureObj := s.beaconKey.Get(key)
-	if treasureObj == nil {
-		treasureObj = s.CreateTreasure(key)
-	}
 
-	guardID := treasureObj.StartTreasureGuard(true)
+	treasureObj, guardID := s.CreateTreasureGuarded(key)
 	defer treasureObj.ReleaseTreasureGuard(guardID)
 
 	// Nothing is changed before the condition has been evaluated: a call whose
@@ -1632,12 +1623,8 @@ func (s *swamp) IncrementInt8(key string, i int8, condition *IncrementInt8Condit
 
 	// get-or-create the treasure for this key. See IncrementUint8 for the rationale behind the
 	// in-guard re-check that follows.
-	treasureObj := s.beaconKey.Get(key)
-	if treasureObj == nil {
-		treasureObj = s.CreateTreasure(key)
-	}
 
-	guardID := treasureObj.StartTreasureGuard(true)
+	treasureObj, guardID := s.CreateTreasureGuarded(key)
 	defer treasureObj.ReleaseTreasureGuard(guardID)
 
 	// Nothing is changed before the condition has been evaluated: a call whose
@@ -1715,12 +1702,8 @@ func (s *swamp) IncrementInt8(key string, i int8, condition *IncrementInt8Condit
 func (s *swamp) IncrementInt16(key string, i int16, condition *IncrementInt16Condition, metadataRequestIfNotExist *IncrementMetadataRequest, metadataRequestIfExist *IncrementMetadataRequest) (newValue int16, incremented bool, metadataResponse *IncrementMetadataResponse, err error) {
 	// get-or-create the treasure for this key. See IncrementUint8 for the rationale behind the
 	// in-guard re-check that follows.
-	treasureObj := s.beaconKey.Get(key)
-	if treasureObj == nil {
-		treasureObj = s.CreateTreasure(key)
-	}
 
-	guardID := treasureObj.StartTreasureGuard(true)
+	treasureObj, guardID := s.CreateTreasureGuarded(key)
 	defer treasureObj.ReleaseTreasureGuard(guardID)
 
 	// Nothing is changed before the condition has been evaluated: a call whose
@@ -1798,12 +1781,8 @@ func (s *swamp) IncrementInt32(key string, i int32, condition *IncrementInt32Con
 
 	// get-or-create the treasure for this key. See IncrementUint8 for the rationale behind the
 	// in-guard re-check that follows.
-	treasureObj := s.beaconKey.Get(key)
-	if treasureObj == nil {
-		treasureObj = s.CreateTreasure(key)
-	}
 
-	guardID := treasureObj.StartTreasureGuard(true)
+	treasureObj, guardID := s.CreateTreasureGuarded(key)
 	defer treasureObj.ReleaseTreasureGuard(guardID)
 
 	// Nothing is changed before the condition has been evaluated: a call whose
@@ -1882,12 +1861,8 @@ func (s *swamp) IncrementInt64(key string, i int64, condition *IncrementInt64Con
 
 	// get-or-create the treasure for this key. See IncrementUint8 for the rationale behind the
 	// in-guard re-check that follows.
-	treasureObj := s.beaconKey.Get(key)
-	if treasureObj == nil {
-		treasureObj = s.CreateTreasure(key)
-	}
 
-	guardID := treasureObj.StartTreasureGuard(true)
+	treasureObj, guardID := s.CreateTreasureGuarded(key)
 	defer treasureObj.ReleaseTreasureGuard(guardID)
 
 	// Nothing is changed before the condition has been evaluated: a call whose
@@ -1977,12 +1952,8 @@ func (s *swamp) IncrementFloat32(key string, f float32, condition *IncrementFloa
 
 	// get-or-create the treasure for this key. See IncrementUint8 for the rationale behind the
 	// in-guard re-check that follows.
-	treasureObj := s.beaconKey.Get(key)
-	if treasureObj == nil {
-		treasureObj = s.CreateTreasure(key)
-	}
 
-	guardID := treasureObj.StartTreasureGuard(true)
+	treasureObj, guardID := s.CreateTreasureGuarded(key)
 	defer treasureObj.ReleaseTreasureGuard(guardID)
 
 	// Nothing is changed before the condition has been evaluated: a call whose
@@ -2063,12 +2034,8 @@ func (s *swamp) IncrementFloat64(key string, f float64, condition *IncrementFloa
 
 	// get-or-create the treasure for this key. See IncrementUint8 for the rationale behind the
 	// in-guard re-check that follows.
-	treasureObj := s.beaconKey.Get(key)
-	if treasureObj == nil {
-		treasureObj = s.CreateTreasure(key)
-	}
 
-	guardID := treasureObj.StartTreasureGuard(true)
+	treasureObj, guardID := s.CreateTreasureGuarded(key)
 	defer treasureObj.ReleaseTreasureGuard(guardID)
 
 	// Nothing is changed before the condition has been evaluated: a call whose
@@ -2251,6 +2218,20 @@ func (s *swamp) CreateTreasure(key string) treasure.Treasure {
 	s.creatingTreasures.Store(key, t)
 
 	return t
+}
+
+// CreateTreasureGuarded returns the record that stands for key (an in-flight one if there is none yet) with its
+// guard held. See the interface for why the lookup is repeated when the object was removed while the caller waited.
+func (s *swamp) CreateTreasureGuarded(key string) (treasure.Treasure, guard.ID) {
+	for {
+		t := s.CreateTreasure(key)
+		guardID := t.StartTreasureGuard(true)
+		if t.GetDeletedAt() == 0 {
+			return t, guardID
+		}
+		// removed (and marked as deleted) while we waited for its guard
+		t.ReleaseTreasureGuard(guardID)
+	}
 }
 
 func (s *swamp) SaveFunction(t treasure.Treasure, guardID guard.ID) treasure.TreasureStatus {
